@@ -173,7 +173,7 @@ func (e *SeqEval) fieldStoreOnPath(load *ssa.UnOp) ssa.Value {
 	if !ok || e.Path == nil {
 		return nil
 	}
-	want := Render(fa.X) + "." + FieldOf(fa).Name()
+	want := Render(fa.X) + "." + FieldName(FieldOf(fa))
 	blocks := e.Path.Blocks
 	at := -1
 	for i := len(blocks) - 1; i >= 0; i-- {
@@ -197,7 +197,7 @@ func (e *SeqEval) fieldStoreOnPath(load *ssa.UnOp) ssa.Value {
 		}
 		for j := start; j >= 0; j-- {
 			if st, ok := b.Instrs[j].(*ssa.Store); ok {
-				if fa2, ok := st.Addr.(*ssa.FieldAddr); ok && Render(fa2.X)+"."+FieldOf(fa2).Name() == want {
+				if fa2, ok := st.Addr.(*ssa.FieldAddr); ok && Render(fa2.X)+"."+FieldName(FieldOf(fa2)) == want {
 					return st.Val
 				}
 			}
